@@ -5,7 +5,7 @@
     makes is regenerated from the sources into Gen/Robust_gen.v on every run. *)
 From Coq Require Import NArith ZArith List.
 From Carquet Require Import Base.Res Gen.Enums_gen Reader.FooterModel Reader.FooterProofs
-  Writer.Stdio Writer.CloseModel Writer.SinkProofs.
+  Writer.Stdio Writer.CloseModel Writer.SinkProofs Reader.PageBoundsModel Reader.RobustInst.
 Import ListNotations.
 
 (** The open decision never reads outside the file: for every byte string and every open path. *)
@@ -59,6 +59,20 @@ Theorem prefix_rejected_partial : forall (meta : Type) (parse : list N -> res me
    exists x, parse (footer_region p) = Ok x /\ open meta parse m p = Ok x).
 Proof. exact FooterProofs.prefix_rejected_partial. Qed.
 Print Assumptions prefix_rejected_partial.
+
+(** The same with the footer parser INSTANTIATED by the Thrift engine's model of parquet_parse_file_metadata
+    followed by the schema engine's build_schema ([footer_parse_carquet], Reader/RobustInst.v): the "parser
+    faults" case is gone and an error always carries a non-OK status - a proper prefix is rejected, or it ends
+    with PAR1, has a fitting length and a footer region that carquet's own parser and build_schema accept
+    (with counts inside the CARQUET_MAX_* limits); only then it is opened. *)
+Theorem prefix_rejected_carquet : forall m (f p : list N),
+  proper_prefix p f ->
+  (exists c, open file_meta footer_parse_carquet m p = Err c /\ c <> 0%Z) \/
+  (12 <= length p /\ ends_with_magic p /\ (m <> Fread -> starts_with_magic p) /\
+   (footer_len p <= N.of_nat (length p - 8))%N /\
+   exists x, footer_parse_carquet (footer_region p) = Ok x /\ open file_meta footer_parse_carquet m p = Ok x /\ within_limits x).
+Proof. exact RobustInst.prefix_rejected_carquet. Qed.
+Print Assumptions prefix_rejected_carquet.
 
 (** A cut inside the trailing magic (the last 1..3 bytes missing) is rejected whatever the parser does. *)
 Theorem cut_in_trailing_magic_rejected : forall (meta : Type) (parse : list N -> res meta) m (body : list N) k,
